@@ -47,9 +47,13 @@ class Lock:
 # Lean side
 
 def gen_consts():
-    out = os.path.join(LEAN, 'Sucds', 'Gen', 'Consts.lean')
-    r = subprocess.run([sys.executable, os.path.join(ROOT, 'tools', 'gen_consts.py'), REPO, out], capture_output=True, text=True)
-    return r.returncode == 0, (r.stdout + r.stderr).strip()
+    """the two translators: constants/tables and the structure codecs (field orders, types, size_in_bytes)"""
+    msgs = []; ok = True
+    for tool, name in (('gen_consts.py', 'Consts.lean'), ('gen_codecs.py', 'Codecs.lean')):
+        out = os.path.join(LEAN, 'Sucds', 'Gen', name)
+        r = subprocess.run([sys.executable, os.path.join(ROOT, 'tools', tool), REPO, out], capture_output=True, text=True)
+        ok = ok and r.returncode == 0; msgs.append((r.stdout + r.stderr).strip())
+    return ok, '; '.join(msgs)
 
 def theorems_of(module_file):
     """names of theorems declared in a Lean file, qualified by the enclosing namespaces"""
@@ -99,7 +103,9 @@ def lean_check(prop, tier='quick'):
     with Lock('lake'):
         ok, msg = gen_consts()
         if not ok:
-            res['ok'] = False; res['errors'].append('gen_consts: ' + msg); return res
+            # a source the translators do not understand: the theorems cannot be re-stated over it
+            res['ok'] = False; res['errors'].append('translator: ' + msg); res['failed_modules'] = ['Sucds.Gen (translator)']
+            res['obligations'] = 1; return res
         mod = 'Sucds.Props.%s' % prop
         t0 = time.time()
         r = subprocess.run(['lake', 'build', mod, 'sucds_model'], cwd=LEAN, capture_output=True, text=True, env=ENV)
@@ -338,7 +344,7 @@ def shrink(case, fails):
 TRUSTED = [
     'Lean 4.33.0 kernel (lake build re-checks every theorem against the regenerated constants)',
     'axioms: propext, Classical.choice, Quot.sound; bv_decide per-call axioms only in the word-level lemmas (DESIGN §7)',
-    'tools/gen_consts.py (constants/tables translator) and the hand-written Lean model, tied to /repo by this correspondence run',
+    'tools/gen_consts.py (constants/tables) and tools/gen_codecs.py (field orders, field types, size_in_bytes of every Serializable impl): translators whose output the theorems are stated over; the rest of the model is hand-written and tied to /repo by this correspondence run',
     'modelled, not verified: core intrinsics (count_ones, trailing_zeros, leading_zeros), std read_exact/write_all, Vec/slice/Option semantics, overflow-check and debug-assert build semantics, rustc/LLVM',
 ]
 
@@ -433,6 +439,16 @@ def main():
                     all_findings.append(Finding('config', '%s vs %s' % (base, c), ci, li, cases[ci][li], a + ' | ' + b, model_by_cfg[base][ci][li][0], model_by_cfg[base][ci][li][1]))
                     break
 
+    # known (recorded, unrepaired) findings: matched by property + request pattern + implementation answer pattern;
+    # a matching finding is reported as KNOWN-FINDING and is not a violation; anything else still is
+    known_hits = {}
+    def is_known(f):
+        for i, k in enumerate(known.get('known', [])):
+            if k.get('property') != prop: continue
+            if re.search(k.get('request_regex', '$^'), f.line) and re.search(k.get('implementation_regex', '.*'), f.impl):
+                known_hits[i] = k; return True
+        return False
+    all_findings = [f for f in all_findings if not (f.kind in ('property', 'config') and is_known(f))]
     machinery = [f for f in all_findings if f.kind == 'machinery']
     prop_f = [f for f in all_findings if f.kind == 'property' or (f.kind == 'config' and prop == 'C15')]
     tie_f = [f for f in all_findings if f.kind == 'tie' or (f.kind == 'config' and prop != 'C15')]
@@ -542,6 +558,8 @@ def main():
             print('MACHINERY-ERROR property=%s the model or driver disagrees with the specification although every theorem checks (a defect of the machinery, not a statement about the code): %s' % (prop, p))
         else:
             print('NOTE property=%s the model, stated over constants/tables regenerated from the current sources, no longer satisfies its specification (the proof obligations fail as well): %s' % (prop, p))
+    for k in known_hits.values():
+        print('KNOWN-FINDING: property=%s %s' % (prop, k.get('what', '')))
     for p, suffix in violations:
         print('VIOLATION property=%s replay=%s%s' % (prop, p, suffix))
     shutil.rmtree(work, ignore_errors=True)
